@@ -50,6 +50,8 @@ func checkC19(c *Ctx) {
 	ruleListElementsReject(c, "C19.g")
 	c.rule("C19.h", "a per-round verdict that a loop overwrites is branched on before the next round", 1)
 	ruleOverwrittenVerdict(c, "C19.h", "imapserver/imapmemserver")
+	c.rule("C19.i", "the saved search result is replaced whenever SAVE is requested, and only after the criteria were resolved against the previous one ($ keys of a multi-key SEARCH see the previous result)", 2)
+	ruleSearchResDiscipline(c, "C19.i")
 }
 
 // ruleConjunctiveMatcher: (*imapmemserver.message).search must be a
